@@ -53,7 +53,7 @@ let state_of (w : PoolConc.cworld) (p : bool) : string =
   " K:" ^ blks x.PoolConc.cache ^ " n=" ^ sz x.PoolConc.acount
 let blk_eq (a, b) (c, d) = int_of_z a = int_of_z c && int_of_z b = int_of_z d
 let rec remove_nth k = function [] -> [] | x :: t -> if k = 0 then t else x :: remove_nth (k - 1) t
-let trace bc cf bs al ops =
+let trace bc cf bs al res ops =
   if int_of_string bc = 1 then "n/a" else begin
     let c = zs bc and cfz = zs cf in
     let b = Gen_MemPoolConst.coq_CorrectBlockSize (zs bs) (zs al) c in
@@ -62,6 +62,10 @@ let trace bc cf bs al ops =
     let live = [| []; [] |] in      (* (block, serial) in the harness's order *)
     let serial = ref 0 in
     let buf = Buffer.create 4096 in
+    let fail_at = (match String.index_opt res '!' with
+      | Some i -> Stdlib.List.filter_map (fun t -> if t = "" then None else Some (int_of_string t)) (String.split_on_char ',' (String.sub res (i + 1) (String.length res - i - 1)))
+      | None -> []) in
+    let attempt = ref 0 in
     let nops = Stdlib.List.length ops in
     Stdlib.List.iteri (fun i op ->
       let ret = ref "-" in
@@ -69,8 +73,13 @@ let trace bc cf bs al ops =
       (match op.[0] with
        | 'a' ->
          let (w', bk) = PoolConc.coq_Allocate c uc !w p in
-         w := w'; ret := sz (fst bk) ^ "." ^ sz (snd bk);
-         live.(pi) <- live.(pi) @ [(bk, !serial)]; incr serial
+         (* a manager request happens iff a buffer was created (exactly one per Allocate for blockCount >= 2) *)
+         let requested = int_of_z (w'.PoolConc.fresh) > int_of_z ((!w).PoolConc.fresh) in
+         if requested then incr attempt;
+         if requested && Stdlib.List.mem !attempt fail_at then ret := "!"      (* std::bad_alloc: the pool is left exactly as it was *)
+         else begin
+           w := w'; ret := sz (fst bk) ^ "." ^ sz (snd bk);
+           live.(pi) <- live.(pi) @ [(bk, !serial)]; incr serial end
        | 'f' ->
          let n = Stdlib.List.length live.(pi) in
          if n > 0 then begin
@@ -108,6 +117,14 @@ let () = iter_lines (fun line ->
   | ["consts"] -> print_endline (sz Gen_MemPool.maxAllocAlignment ^ " 18446744073709551615 8")
   | ["ceil"; v; m] -> print_endline (sz (Gen_UIntMath.coq_Ceil (zs v) (zs m)))
   | ["cbs"; bs; al; bc] -> print_endline (sz (Gen_MemPoolConst.coq_CorrectBlockSize (zs bs) (zs al) (zs bc)))
+  | ["dswap"; m; a; dm; da] ->
+    let (((m', a'), dm'), da') = Gen_MemPoolData.coq_Swap (zs m) (zs a) (zs dm) (zs da) in
+    print_endline (String.concat " " [sz m'; sz a'; sz dm'; sz da'])
+  | ["gba"; bs; ma] -> print_endline (match Gen_MemPoolConst.coq_GetBlockAlignment (zs bs) (zs ma) with GenPrelude.Ok a -> sz a | _ -> "no-result")
+  | ["gbp"; bs; ma; bc] ->
+      (match Gen_MemPoolConst.coq_GetBlockAlignment (zs bs) (zs ma) with
+       | GenPrelude.Ok a -> print_endline (ma ^ " " ^ bc ^ " " ^ sz a ^ " " ^ sz a ^ " " ^ sz (Gen_MemPoolConst.coq_CorrectBlockSize (zs bs) a (zs bc)))
+       | _ -> print_endline "no-result")
   | ["chk"; bc; al] -> print_endline (b2s (Gen_MemPoolConst.coq_CheckBlockCount (zs bc)) ^ " " ^ b2s (Gen_MemPoolConst.coq_CheckBlockAlignment (zs al)))
   | ["ar"; bc; cf; b; a] ->
     let c = zs bc and cf = zs cf and b = zs b and a = zs a in
@@ -164,20 +181,68 @@ let () = iter_lines (fun line ->
     (match PoolLinks.delete_buffer (PoolLinks.heap_of_lists l []) (nth1 l h) (nth1 l k) with
      | None -> print_endline "Stuck"
      | Some h' -> print_endline (show_list h' (nth1 l h) fuel))
-  | "tr" :: bc :: cf :: bs :: al :: _ :: _ :: ops -> print_endline (trace bc cf bs al ops)
-  | cmd :: bc :: cf :: bs :: al :: _ :: _ :: ops when String.length cmd > 3 && String.sub cmd 0 3 = "tr@" -> print_endline (trace bc cf bs al ops)
+  | "tr" :: bc :: cf :: bs :: al :: _ :: res :: ops -> print_endline (trace bc cf bs al res ops)
+  | cmd :: bc :: cf :: bs :: al :: _ :: res :: ops when String.length cmd > 3 && String.sub cmd 0 3 = "tr@" -> print_endline (trace bc cf bs al res ops)
   | ["u32gp"; bc; bs; _; h] ->
     let c = zs bc in let b = (let x = zs bs in if BinInt.Z.ltb x (zi 4) then zi 4 else x) in
     let big = zs "1099511627776" in
-    let mB k = BinInt.Z.mul k big in
+    let mB k = BinInt.Z.mul k big in let m0 _ = zi 0 in
     print_endline (oc_str (fun a -> Printf.sprintf "%s %s %s" (sz (BinInt.Z.div a big)) (sz (BinInt.Z.modulo a big))
-                                     (sz (Gen_MemPoolUInt32.pvGetBufferSize c mB (zi 0) (zi 0) b (zi 0))))
-      (Gen_MemPoolUInt32.coq_GetRealPointer c mB (zi 0) (zi 0) b (zi 0) (zs h)))
+                                     (sz (Gen_MemPoolUInt32.pvGetBufferSize c mB (zi 0) m0 (zi 0) (zi 0) b (zi 0))))
+      (Gen_MemPoolUInt32.coq_GetRealPointer c mB (zi 0) m0 (zi 0) (zi 0) b (zi 0) (zs h)))
   | ["u32nb"; bc; bs; maxt; nbuf] ->
     let c = zs bc in let b = (let x = zs bs in if BinInt.Z.ltb x (zi 4) then zi 4 else x) in
     let mM = BinInt.Z.div (zs maxt) c in       (* constructor line 827 *)
-    print_endline (oc_str (fun (_, head) -> sz head)
-      (Gen_MemPoolUInt32.pvNewBuffer c (fun _ -> zi 0) (zi 0) mM b (zi 0) (zi 0) (zs nbuf)))
+    print_endline (oc_str (fun ((((_, _), _), _), head) -> sz head)
+      (Gen_MemPoolUInt32.pvNewBuffer c (fun _ -> zi 0) (zs nbuf) (fun _ -> zi 0) (zi 0) mM b (zi 0) (zi 0)))
+  | "u32tr" :: bc :: bs :: maxt :: ops ->
+    (* the GENERATED Allocate / Deallocate / DeallocateAll run on (mBuffers, count, memory cells, mBlockHead, mAllocCount); the buffer
+       addresses are the driver's own (disjoint) ones - the comparison is on handles, mBlockHead, counts and the free-list order *)
+    let c = zs bc in let b = (let x = zs bs in if BinInt.Z.ltb x (zi 4) then zi 4 else x) in
+    let mM = BinInt.Z.div (zs maxt) c in
+    let big = zs "1099511627776" in
+    let st = ref ((fun _ -> zi 0), zi 0, (fun _ -> zi 0), Gen_MemPoolUInt32.nullPtr, zi 0) in
+    let fresh = ref 1 in let live = ref [] in
+    let out = Buffer.create 256 in
+    let token ret =
+      let (mb, n, mem, head, cnt) = !st in
+      let limit = int_of_z (BinInt.Z.mul n c) in
+      let rec walk h len hash =
+        if BinInt.Z.eqb h Gen_MemPoolUInt32.nullPtr then Printf.sprintf "%d#%d" len hash
+        else if len >= limit then "CYCLE"
+        else match Gen_MemPoolUInt32.coq_GetRealPointer c mb n mem head mM b cnt h with
+          | Ok a -> walk (PoolU32Prims.load32 mem a) (len + 1) ((((hash * 16777619) land 0xFFFFFFFF) lxor (int_of_z h)) land 0xFFFFFFFF)
+          | _ -> "STUCK" in
+      Buffer.add_string out (Printf.sprintf "%s/%s/%s/%s/%s " ret (sz head) (sz n) (sz cnt) (walk head 0 2166136261)) in
+    Stdlib.List.iter (fun o ->
+      let (mb, n, mem, head, cnt) = !st in
+      if o = "a" then begin
+        let nb = BinInt.Z.mul (zi !fresh) big in
+        match Gen_MemPoolUInt32.coq_Allocate c mb n mem head mM b cnt nb with
+        | Ok (((((blk, mb'), n'), mem'), head'), cnt') ->
+          if BinInt.Z.gtb n' n then incr fresh;
+          (* the user now owns the block and overwrites the cell the pool used *)
+          let mem'' = (match Gen_MemPoolUInt32.coq_GetRealPointer c mb' n' mem' head' mM b cnt' blk with
+                       | Ok a -> PoolU32Prims.store32 mem' (zs "3735928559") a | _ -> mem') in
+          st := (mb', n', mem'', head', cnt'); live := !live @ [blk]; token (sz blk)
+        | Exn -> token "E"
+        | Stuck -> token "Stuck" | Fuel -> token "Fuel"
+      end else if String.length o > 2 && o.[0] = 'f' then begin
+        if !live = [] then token "-" else begin
+          let k = int_of_string (String.sub o 2 (String.length o - 2)) in
+          let len = Stdlib.List.length !live in
+          let k = if k >= 1000000000 then len - 1 else k mod len in
+          let h = Stdlib.List.nth !live k in
+          live := Stdlib.List.filteri (fun i _ -> i <> k) !live;
+          match Gen_MemPoolUInt32.coq_Deallocate c mb n mem head mM b cnt h with
+          | Ok ((((_, n'), mem'), head'), cnt') -> st := (mb, n', mem', head', cnt'); token "-"
+          | _ -> token "Stuck"
+        end
+      end else if o = "x" then begin
+        let ((n', head'), cnt') = Gen_MemPoolUInt32.coq_DeallocateAll c mb n mem head mM b cnt in
+        st := (mb, n', mem, head', cnt'); live := []; token "-"
+      end else token "-") ops;
+    print_endline (String.trim (Buffer.contents out))
   | ["ctor"; bc; bs; al] ->
     let c = zs bc and a = zs al in
     let b = Gen_MemPoolConst.coq_CorrectBlockSize (zs bs) a c in
